@@ -41,7 +41,7 @@ func PfxBFS(r *Run, roots [][]byte, visit Visit, maxStates int) PfxStats {
 var Complete func(w []byte) []byte
 
 // SuffixMenu is appended to every expanded node (see PfxBFSDelta).
-var SuffixMenu = []string{"null", "true", "false", "0", "-1", "1.5e1", `"x"`, "[]", "{}", " null", "\tnull ", "nullx", "ull", "rue", ",null", ":null", "]", "}", "null]", "null}", `"x":null}`}
+var SuffixMenu = []string{".5", ".5e1", "e1", "E+1", "e-0", "5", "00", "-", "+1", "null", "true", "false", "0", "-1", "1.5e1", `"x"`, "[]", "{}", " null", "\tnull ", "nullx", "ull", "rue", ",null", ":null", "]", "}", "null]", "null}", `"x":null}`}
 
 // classReps has one representative byte per byte class.
 var classReps = func() []byte {
@@ -94,9 +94,20 @@ func PfxBFSDelta(r *Run, roots [][]byte, visit Visit, maxStates int, delta int) 
 		// every expanded state is also followed by whole tokens from the suffix menu ("what if a
 		// complete, possibly wrong, token follows here"): reaches multi-byte continuations that
 		// byte-at-a-time recovery exploration cannot
+		var wcomp []byte
+		if Complete != nil {
+			wcomp = Complete(w)
+		}
 		for _, m := range SuffixMenu {
-			visit(Exact(append(append([]byte(nil), w...), m...)))
+			x := append(append([]byte(nil), w...), m...)
+			visit(Exact(x))
 			st.Transitions++
+			if len(wcomp) > 0 {
+				// ... and then the state's own shortest completion, so that a token the
+				// implementation wrongly absorbed here ends in an accepted document
+				visit(Exact(append(x, wcomp...)))
+				st.Transitions++
+			}
 		}
 		for b := 0; b < 256; b++ {
 			child[len(w)] = byte(b)
@@ -236,6 +247,12 @@ func Pump(r *Run, loops []Loop, visit Visit, complete func([]byte) []byte, maxN,
 			for i := 0; i < k; i++ {
 				base = append(base, l.B)
 			}
+			// the completion is that of the pumped prefix (the state the run loops in), so that an
+			// implementation that wrongly survives byte c inside the run is seen to accept
+			var baseComp []byte
+			if complete != nil {
+				baseComp = complete(base)
+			}
 			for c := 0; c < 256; c++ {
 				x := append(append([]byte(nil), base...), byte(c))
 				for i := 0; i < tail; i++ {
@@ -244,7 +261,11 @@ func Pump(r *Run, loops []Loop, visit Visit, complete func([]byte) []byte, maxN,
 				visit(Exact(x))
 				n++
 				if complete != nil {
-					if suf := complete(x); len(suf) > 0 {
+					suf := complete(x)
+					if len(suf) == 0 {
+						suf = baseComp
+					}
+					if len(suf) > 0 {
 						visit(Exact(append(x, suf...)))
 						n++
 					}
